@@ -310,7 +310,184 @@ func (h *c15Run) genRec(r *RNG, p *c15Pool) c15Rec {
 	}
 }
 
+func goCopyAccess(old [8]byte, data []byte) [8]byte {
+	copy(old[:], data)
+	return old
+}
+
+// stepBatchIndependent: one update-user request whose sub-records concern pairwise different logins —
+// a RENAME first, then modify / delete records for OTHER existing accounts and a create — so that every
+// record's own effect can be judged on the post-state (key batch-record-not-applied).
+func (h *c15Run) stepBatchIndependent(r *RNG, p *c15Pool, step int) bool {
+	var ex []string
+	for _, a := range h.ts.Acct.List() {
+		if a.Login != "admin" && len(a.Login) < 200 {
+			ex = append(ex, a.Login)
+		}
+	}
+	if len(ex) < 2 {
+		return false
+	}
+	for i := range ex {
+		for j := i + 1; j < len(ex); j++ {
+			if ex[j] < ex[i] {
+				ex[i], ex[j] = ex[j], ex[i]
+			}
+		}
+	}
+	// deterministic shuffle
+	for i := len(ex) - 1; i > 0; i-- {
+		j := r.Intn(i + 1)
+		ex[i], ex[j] = ex[j], ex[i]
+	}
+	used := map[string]bool{"admin": true}
+	for _, l := range ex {
+		used[l] = true
+	}
+	fresh := func() []byte {
+		for {
+			l := c15GenLogin(r)
+			if len(l) < 100 && !used[string(l)] {
+				used[string(l)] = true
+				return l
+			}
+		}
+	}
+	type want struct {
+		kind     string
+		src, dst string
+		name     []byte
+		pwKind   string
+		pw       []byte
+		access   *[8]byte
+		before   hotline.Account
+	}
+	var wants []want
+	var recs [][]c15Field
+	mk := func(kind string, login string) {
+		b := h.ts.Acct.Get(login)
+		w := want{kind: kind, src: login, dst: login, before: *b, name: p.name(r)}
+		var fs []c15Field
+		if kind == "rename" {
+			w.dst = string(fresh())
+			fs = append(fs, c15Field{101, obf([]byte(login))})
+		}
+		fs = append(fs, c15Field{105, obf([]byte(w.dst))}, c15Field{102, w.name})
+		present, data, pk := c15PwChoice(r, p)
+		w.pwKind, w.pw = pk, data
+		if present {
+			fs = append(fs, c15Field{106, data})
+		}
+		if r.Chance(70) {
+			ac := h.access(r)
+			a8 := goCopyAccess(b.Access, ac)
+			w.access = &a8
+			fs = append(fs, c15Field{110, ac})
+		}
+		wants = append(wants, w)
+		recs = append(recs, fs)
+	}
+	mk("rename", ex[0])
+	mk("modify", ex[1])
+	if len(ex) > 2 && r.Chance(60) {
+		mk("modify", ex[2])
+	}
+	if len(ex) > 3 && r.Chance(50) {
+		wants = append(wants, want{kind: "delete", src: ex[3]})
+		recs = append(recs, []c15Field{{101, obf([]byte(ex[3]))}})
+	}
+	if r.Chance(50) {
+		l := fresh()
+		ac := h.access(r)
+		a8 := goCopyAccess([8]byte{}, ac)
+		w := want{kind: "create", src: string(l), dst: string(l), name: p.name(r), pwKind: "value", pw: p.pw(r), access: &a8}
+		wants = append(wants, w)
+		recs = append(recs, []c15Field{{105, obf(l)}, {102, w.name}, {106, w.pw}, {110, ac}})
+	}
+	var fields []hotline.Field
+	tok := fmt.Sprintf("U %d", len(recs))
+	for i, fs := range recs {
+		fields = append(fields, hotline.NewField(hotline.FieldData, c15SubRecord(fs)))
+		tok += " " + c15Tok(fs)
+		w := wants[i]
+		h.addLogin([]byte(w.src))
+		if w.dst != "" {
+			h.addLogin([]byte(w.dst))
+			if w.kind == "rename" {
+				for _, pw := range h.pws[w.src] {
+					h.addPw([]byte(w.dst), pw)
+				}
+			}
+			if w.pwKind == "value" {
+				h.addPw([]byte(w.dst), w.pw)
+			}
+		}
+		h.c.Dist("update-record/" + w.kind)
+	}
+	res, _, pn := h.ts.Call(h.cc, mkTran(hotline.TranUpdateUser, uint32(step), fields...))
+	o := classify(res, pn)
+	h.obs(tok, fmt.Sprintf("step %d update-user independent batch", step), o)
+	h.c.Dist("update-user-independent/" + o)
+	fail := func(i int, what string) {
+		h.c.Note("record_index", i)
+		h.c.Note("record", c15Tok(recs[i]))
+		h.c.Note("history", strings.Join(h.toks, " "))
+		h.c.Violation("batch-record-not-applied", fmt.Sprintf("update-user with %d independent records: record %d (%s %q): %s", len(recs), i, wants[i].kind, wants[i].src, what))
+	}
+	if o != "done" {
+		fail(0, "the request was not acknowledged ("+o+")")
+	} else {
+		h.nDone++
+		h.nMut++
+	}
+	for i, w := range wants {
+		switch w.kind {
+		case "delete":
+			if h.ts.Acct.Get(w.src) != nil {
+				fail(i, "the deleted login is still present")
+			}
+			continue
+		case "rename":
+			if h.ts.Acct.Get(w.src) != nil {
+				fail(i, "the renamed-away login is still present")
+			}
+		}
+		now := h.ts.Acct.Get(w.dst)
+		if now == nil {
+			fail(i, fmt.Sprintf("login %q does not exist afterwards", w.dst))
+			continue
+		}
+		if now.Name != string(w.name) {
+			fail(i, "the name was not applied")
+		}
+		if w.access != nil && now.Access != *w.access {
+			fail(i, "the privileges were not applied")
+		}
+		if w.access == nil && w.kind != "create" && now.Access != w.before.Access {
+			fail(i, "the privileges changed although none were sent")
+		}
+		switch w.pwKind {
+		case "value":
+			if !h.verifies(now.Password, w.pw) {
+				fail(i, "the new password is not accepted")
+			}
+		case "marker":
+			if now.Password != w.before.Password {
+				fail(i, "the 'unchanged' marker changed the stored password")
+			}
+		default:
+			if !h.verifies(now.Password, []byte{}) {
+				fail(i, "the password was not cleared")
+			}
+		}
+	}
+	return true
+}
+
 func (h *c15Run) stepUpdateUser(r *RNG, p *c15Pool, step int) {
+	if r.Chance(25) && h.stepBatchIndependent(r, p, step) {
+		return
+	}
 	n := r.Pick(1, 1, 2, 2, 3, 4)
 	var recs []c15Rec
 	var fields []hotline.Field
